@@ -384,6 +384,9 @@ func runUnit(u unit, scratch, tier, mode string, seedBase int64, wall time.Durat
 					agg.crashes = append(agg.crashes, fmt.Sprintf("worker seeds %d.. (%s): err=%v result=%v\n%s", from, u.pkg, err, rerr, tail))
 				}
 				if mode == "selftest" && len(outb) > 0 && strings.Contains(outb, "NONDET") {
+					if len(outb) > 4000 {
+						outb = outb[:4000] + "\n...(truncated)"
+					}
 					fmt.Fprintln(os.Stderr, outb)
 				}
 				mu.Unlock()
